@@ -15,6 +15,8 @@ Code side: (S->C) every emitted circuit is replayed on a dense numpy register an
 
 import itertools
 import math
+import os
+import time
 import warnings
 
 import numpy as np
@@ -29,7 +31,7 @@ LET = "IXYZ"
 
 ALL_ACTIONS = ("ActH", "ActS", "ActCX", "ActCZ", "ActRelabel", "ActMeasure", "ActDephase", "ActReset",
                "QEntropySubsys", "QMutinf", "QMutinfSubsys", "QLogneg", "QLognegSubsys", "QTwoQubit", "QSchmidtGap")
-GATE_ACTIONS = ("ActH", "ActS", "ActCX", "ActCZ", "ActRelabel")
+STATE_ACTIONS = ("ActH", "ActS", "ActCX", "ActCZ", "ActRelabel", "ActMeasure", "ActDephase", "ActReset")
 
 
 # --------------------------------------------------------------------------- small helpers
@@ -200,9 +202,14 @@ def observe_measures(rng, R, reg, tid, budget, with_discord=True):
     """value observations of the scalar measures on register R"""
     reps = q_reps(R)
     cands = obs_candidates(R.n, R.pure, with_discord)
+    # sparse operators are rejected by most of the operator routines at the pinned commit: keep a thin sample
+    cands = [c for c in cands if not (c[1] == "sdop" and c[0] in ("entropy", "mutinf", "logneg", "negativity")) or rng.random() < 0.15]
     if budget is not None and budget < len(cands):
         idx = rng.choice(len(cands), size=budget, replace=False)
         cands = [cands[i] for i in sorted(idx)]
+        # the discord optimisation costs ~0.1 s: at most two per state
+        disc = [c for c in cands if c[0] == "quantum_discord"]
+        cands = [c for c in cands if c[0] != "quantum_discord"] + disc[:2]
     recs = []
     for (m, rep, dims, A, B) in cands:
         A = list(A)
@@ -240,11 +247,15 @@ def observe_matrices(rng, R, reg, tid):
 
     def pv_rec(m, rep, fn, scale, A=(), dims=(), aux_fn=None):
         r = {"ev": "pvec", "tid": tid, "reg": reg, "m": m, "rep": rep, "A": list(A), "dims": list(dims),
-             "pv": [], "aux": 1, "grid": False, "exc": ""}
+             "pv": [], "pv2": [], "aux": 1, "grid": False, "exc": ""}
         try:
             with warnings.catch_warnings():
                 warnings.simplefilter("ignore")
                 M = fn()
+            if isinstance(M, tuple):          # two admissible readings of an undocumented convention
+                M, M2 = M
+                pv2, g2 = _snap_list(U.pvec(np.asarray(M2), n), scale)
+                r["pv2"] = pv2 if g2 else []
             pv, g = _snap_list(U.pvec(np.asarray(M), n), scale)
             r["pv"], r["grid"] = pv, g
             if aux_fn is not None:
@@ -255,7 +266,7 @@ def observe_matrices(rng, R, reg, tid):
         recs.append(r)
 
     # pauli_decomp: coefficients Tr(rho P)/2^n, as an OrderedDict name -> coefficient
-    for rep in dense:
+    for rep in ([dense[int(rng.integers(len(dense)))]] if (n <= 2 or rng.random() < 0.35) else []):
         def _pd(rep=rep):
             d = qu.pauli_decomp(reps[rep], mode="c")
             vec = np.zeros(4 ** n, dtype=complex)
@@ -288,7 +299,8 @@ def observe_matrices(rng, R, reg, tid):
             hold["k"] = k
             d = 2 ** n
             t = k.reshape(d, d)
-            return t @ t.conj().T
+            # which factor of the doubled space carries rho is not documented: either is accepted
+            return t @ t.conj().T, t.T @ t.conj()
 
         pv_rec("purify", "dop", _pur, 1.0, aux_fn=lambda: np.vdot(hold["k"], hold["k"]))
 
@@ -326,7 +338,9 @@ def observe_matrices(rng, R, reg, tid):
     # simulated computational-basis counts: only strings of non-zero probability, C in total
     rep = dense[int(rng.integers(len(dense)))]
     C = 40
-    r = {"ev": "counts", "tid": tid, "reg": reg, "rep": rep, "C": C, "keys": [], "tot": 0, "grid": True, "exc": ""}
+    # numpy's sampler rejects probabilities like -1e-18: a rounding artefact of the prepared input, noted only
+    negdiag = bool(rep == "dop" and float(np.min(np.real(np.diag(R.rho)))) < 0.0)
+    r = {"ev": "counts", "tid": tid, "reg": reg, "rep": rep, "C": C, "keys": [], "tot": 0, "grid": True, "exc": "", "negdiag": negdiag}
     try:
         res = qu.simulate_counts(reps[rep], C, seed=int(rng.integers(1 << 30)))
         r["keys"] = [[int(ch) for ch in key] for key in sorted(res)]
@@ -913,25 +927,63 @@ def edge_cases(rng, tid):
 
 
 # --------------------------------------------------------------------------- the check
+def selftest_trace_spec(ctx, recs):
+    """Corrupt recorded fields of one trace and demand that the Trace spec rejects exactly those lines
+    (and nothing else): the judge is not vacuous.  Not counted as evidence."""
+    import copy
+    import qv.tlc as T
+    from ..ctx import MachineryError
+
+    tid0 = next(r["tid"] for r in recs if r["ev"] == "obs")
+    tr = [copy.deepcopy(r) for r in recs if r["tid"] == tid0][:400]
+    want = []
+    seen = set()
+    for i, r in enumerate(tr):
+        if r["ev"] == "obs" and r.get("exc") == "" and r.get("grid") and r["m"] not in seen and len(want) < 6:
+            seen.add(r["m"])
+            r["v"] += 1
+            want.append(i + 1)
+        elif r["ev"] == "pvec" and r.get("exc") == "" and r.get("grid") and r["m"] not in seen and r["pv"]:
+            seen.add(r["m"])
+            r["pv"][-1] += 1
+            want.append(i + 1)
+    path = ctx.write_trace(tr, "selftest")
+    verdict, _ = T.validate_trace("C20_Trace", "Trace.cfg", ctx.spec_dir, path, scratch=ctx.scratch)
+    got = sorted({f["line"] for f in verdict["fails"] if not f["clause"].startswith("NOTE:")})
+    if not want or got != sorted(want):
+        raise MachineryError("trace-spec self-test: corrupted lines %s, rejected lines %s" % (want, got))
+    ctx.extra["trace_selftest"] = "%d corrupted observations, all and only those rejected" % len(want)
+
+
 def run(ctx):
     import qv.tlc as T
     from ..ctx import MachineryError
 
     quick = ctx.tier == "quick"
     rng = np.random.default_rng(20000 + ctx.seed)
+    phases = {}
+    clock = [time.time(), time.process_time()]
+
+    def lap(name):
+        now = [time.time(), time.process_time()]
+        phases[name] = {"wall_s": round(now[0] - clock[0], 1), "python_cpu_s": round(now[1] - clock[1], 1)}
+        clock[:] = now
 
     # 1. TLC: reference identities + shortcut routes over every stabilizer state of 3 (4) qubits
     if quick:
-        ctx.model_check("MC_C20", "MC_quick.cfg", name="measures-n3", require_actions=ALL_ACTIONS, workers=12)
+        ctx.model_check("MC_C20", "MC_quick_q2.cfg", name="measures-n2-queries", require_actions=ALL_ACTIONS, workers=4)
+        ctx.model_check("MC_C20", "MC_quick.cfg", name="measures-n3", require_actions=STATE_ACTIONS, workers=12)
     else:
-        ctx.model_check("MC_C20", "MC_thorough.cfg", name="measures-n3-heavy", require_actions=ALL_ACTIONS, workers=16)
-        ctx.model_check("MC_C20", "MC_thorough4.cfg", name="routes-n4-pure", require_actions=GATE_ACTIONS, workers=16)
+        ctx.model_check("MC_C20", "MC_thorough.cfg", name="measures-n3-heavy-queries", require_actions=ALL_ACTIONS, workers=16)
+        ctx.model_check("MC_C20", "MC_thorough4.cfg", name="routes-n4-pure", require_actions=("ActH", "ActS", "ActCX"), workers=16)
     # self-test of the model: a wrong re-indexing after the partial trace must be rejected by TLC
+    # (it needs four qubits: with three, the kept pair is symmetric and the mutant is invisible)
     r = T.run_tlc("MC_C20", "MC_mutant.cfg", ctx.spec_dir, workers=4, allow_violation=True, scratch=ctx.scratch)
-    if r.violated != "ImplRoutes":
+    if r.violated != "ImplRoutes4":
         raise MachineryError("model self-test: the wrong logneg_subsys re-indexing was not rejected by TLC")
-    ctx.extra["model_selftest"] = "mutated re-indexing of logneg_subsys violates ImplRoutes after %d states (N=4)" % r.distinct
+    ctx.extra["model_selftest"] = "mutated re-indexing of logneg_subsys violates ImplRoutes4 after %d states (N=4)" % r.distinct
 
+    lap("tlc_model")
     # 2. S -> C: circuits of all distinct states, printed by TLC
     circuits = {}
     for n, cfg in ((1, "MC_emit1.cfg"), (2, "MC_emit2.cfg"), (3, "MC_emit3.cfg")):
@@ -942,6 +994,7 @@ def run(ctx):
         circuits[n] = cs
         ctx.mc.append(dict(res.as_dict(), name="emit-n%d" % n, coverage={}))
     ctx.extra["tlc_enumerated_states"] = {str(n): len(c) for n, c in circuits.items()}
+    lap("tlc_emit")
 
     recs = []
     tid = 0
@@ -972,14 +1025,15 @@ def run(ctx):
 
     if quick:
         replay_set(1, list(range(len(circuits[1]))), None)
-        replay_set(2, list(range(len(circuits[2]))), 40)
-        pick = sorted(int(x) for x in rng.choice(len(circuits[3]), size=90, replace=False))
-        replay_set(3, pick, 40)
+        replay_set(2, list(range(len(circuits[2]))), 32)
+        pick = sorted(int(x) for x in rng.choice(len(circuits[3]), size=75, replace=False))
+        replay_set(3, pick, 36)
     else:
         replay_set(1, list(range(len(circuits[1]))), None)
         replay_set(2, list(range(len(circuits[2]))), None)
         replay_set(3, list(range(len(circuits[3]))), 45)
     ctx.extra["states_replayed"] = nstates
+    lap("replay")
 
     # 3. C -> S: random walks with two registers on 4 (and 5) qubits
     walks = [(4, 10, 40)] * 2 if quick else [(4, 25, 80)] * 8 + [(5, 12, 60)] * 3 + [(2, 25, None)] * 3 + [(3, 25, 60)] * 4
@@ -987,27 +1041,32 @@ def run(ctx):
         tid += 1
         recs += random_walk(rng, n, tid, steps, budget, quick)
 
+    lap("walks")
     # 4. qudit dimension lists: shift states (exact) and random states (relations)
     tid += 1
-    recs += shift_cases(rng, 60 if quick else 700, tid)
+    recs += shift_cases(rng, 50 if quick else 700, tid)
     tid += 1
-    rel = relational_cases(rng, 25 if quick else 400, tid)
+    rel = relational_cases(rng, 20 if quick else 400, tid)
     rel += edge_cases(rng, tid)
     recs += rel
     ctx.sample({"shift": next(x for x in recs if x["ev"] == "shift")})
     ctx.sample({"rel": rel[0]})
 
+    lap("shift_rel")
+    selftest_trace_spec(ctx, recs)
     fails = ctx.validate("C20_Trace", "Trace.cfg", recs, name="measures", ntraces=tid, chunk=15000)
+    lap("validate")
+    ctx.extra["phases"] = phases
 
     notes = [f for f in fails if f["clause"].startswith("NOTE:")]
     real = [f for f in fails if not f["clause"].startswith("NOTE:")]
     rej = {}
     for f in notes:
-        key = "%s/%s" % (f["record"].get("m", f["record"].get("ev")), f["record"].get("rep"))
+        key = "%s %s/%s %s" % (f["clause"][5:], f["record"].get("m", f["record"].get("ev")), f["record"].get("rep"), f["record"].get("exc"))
         rej[key] = rej.get(key, 0) + 1
-    ctx.extra["sparse_rejections"] = rej
-    for k in sorted(rej)[:20]:
-        ctx.notes.append("sparse input rejected (exception, allowed): %s x%d" % (k, rej[k]))
+    ctx.extra["rejections_noted"] = rej
+    for k in sorted(rej)[:30]:
+        ctx.notes.append("input rejected with an exception (allowed, not a violation): %s x%d" % (k, rej[k]))
     by_ev = {}
     for x in recs:
         key = x["ev"] + (":" + x.get("m", x.get("cl", "")) if x["ev"] in ("obs", "pvec", "pair", "shift") else "")
